@@ -400,6 +400,8 @@ class Program:
 
 def load_program(repo=None, extra_defs=(), want_tool=True, cache=True):
     repo = repo or REPO
+    if os.environ.get("VERIF_SCRATCH_OUT"):
+        cache = False        # scratch copies (self-test, seeds) are parsed once
     lib, tool = compile_db(repo, extra_defs)
     todo = lib + (tool if want_tool else [])
     flags = todo[0][1]
